@@ -1,6 +1,7 @@
 """C01 - ingested values come back unchanged: width/tag tables of the column builders (narrow claim)."""
 from rules import widths as W
 from rules import misc as M
+from rules import builders as B
 
 
 def run(ctx):
@@ -11,6 +12,10 @@ def run(ctx):
     ctx.run(W.flt2_exact_narrowing_test)
     ctx.run(M.nul1_null_map_never_ignored)
     ctx.run(M.nul2_bitmap_ones_fill_whole_bytes_only)
+    ctx.run(M.nul5_builder_bitmap_written_bitwise)
+    ctx.run(B.nul6_mixed_buffer_keeps_row_slots)
+    ctx.run(B.flw24_integer_builder_differences)
+    ctx.run(B.pan7_empty_batch_is_applicable)
     return ctx.finish(
         'Syntax-tree rules over the column builders: in every narrow branch the range bound, the '
         'element type and the encoding tag agree (a tag that disagrees with the stored element type '
